@@ -1,4 +1,52 @@
 package api
 
-func (s *API) zzAfterInit()   {}
-func (s *API) zzBeforeClose() {}
+import "sync"
+
+// The real API server tracks the HTTP handlers that are running and its Close waits for
+// them (httpp.Server.Close: Shutdown, then handlerTracker.close). A handler of a
+// configuration edit is blocked inside Core until Core's routine takes its request, so
+// this waiting is part of the interface Core relies on. The stand-in reproduces it: the
+// harness enters a request before it calls Core, like the handler chain does.
+
+var (
+	zzMu       sync.Mutex
+	zzInflight = map[*API]*sync.WaitGroup{}
+	zzClosed   = map[*API]bool{}
+)
+
+// ZZEnter registers a request that the server has accepted; the returned function ends it.
+// ok is false when the server is closed (the client would get "connection refused").
+func (s *API) ZZEnter() (leave func(), ok bool) {
+	zzMu.Lock()
+	defer zzMu.Unlock()
+	if s == nil || zzClosed[s] {
+		return nil, false
+	}
+	wg := zzInflight[s]
+	if wg == nil {
+		wg = &sync.WaitGroup{}
+		zzInflight[s] = wg
+	}
+	wg.Add(1)
+	return wg.Done, true
+}
+
+func (s *API) zzAfterInit() {}
+
+func (s *API) zzBeforeClose() {
+	zzMu.Lock()
+	zzClosed[s] = true
+	wg := zzInflight[s]
+	zzMu.Unlock()
+	if wg != nil {
+		wg.Wait()
+	}
+}
+
+// ZZReset forgets every server (start of a run).
+func ZZReset() {
+	zzMu.Lock()
+	zzInflight = map[*API]*sync.WaitGroup{}
+	zzClosed = map[*API]bool{}
+	zzMu.Unlock()
+}
